@@ -10,12 +10,9 @@ namespace LD.Obligations
 theorem longScale_literal : Generated.longScaleLiteral = 0xFFFFFFFFFFFFFFF := rfl
 theorem longScale_model : LD.longScale = SoftF32.ofInt (Generated.longScaleLiteral : Nat) := rfl
 theorem buffer_size : Generated.initialHashInputBufferSize = LD.initialHashInputBufferSize := rfl
+/-- Every call to `internal.ParseHexUint64` in the evaluation package receives the first 15 hex
+digits of the hash (model: `Bucket.hashPrefix`). -/
 theorem hex_digits : Generated.hashHexDigits = 15 := rfl
 theorem prealloc : Generated.preallocatedPrerequisiteChainSize = Expected.preallocatedPrerequisiteChainSize ∧
     Generated.preallocatedSegmentChainSize = Expected.preallocatedSegmentChainSize := ⟨rfl, rfl⟩
-/-- The recursion bookkeeping (`evaluationStack`) is passed by value everywhere, never by pointer:
-this is what makes the model's immutable chains faithful. -/
-theorem stack_by_value : Generated.stackParams = Expected.stackParams := rfl
-theorem stack_all_by_value : ∀ p ∈ Generated.stackParams, p.2 = "evaluationStack" := by decide
-
 end LD.Obligations
